@@ -106,7 +106,7 @@ def gen_input(rng, fam, dyadic, kinds=None):
     n = rng.choice([1, 2, 3, 3, 4, 4, 5, 6, 8, 10])
     terms, ctor = gen_terms(rng, n, kind, dyadic)
     edits = gen_edits(rng, n, kind, terms, dyadic)
-    labels = "int" if kind in MATRIX else rng.choice(Labels.STYLES)
+    labels = "int" if kind in MATRIX else rng.choice(Labels.STYLES_X)
     num = "float" if (dyadic and rng.random() < 0.4) else rng.choice(["int", "frac"])
     return {"kind": kind, "n": n, "p": terms, "ctor": ctor, "edits": edits, "labels": labels, "num": num}
 
@@ -195,7 +195,7 @@ def bounds_case(rng):
     n = rng.choice([1, 2, 3, 4, 6])
     terms, _ = gen_terms(rng, n, "PUBO", False)
     shape = rng.choice(["none", "nn", "nh", "ln", "lh"])
-    return {"family": "bounds", "kind": "PUBO", "n": n, "p": terms, "ctor": "pairs", "edits": [], "labels": rng.choice(Labels.STYLES),
+    return {"family": "bounds", "kind": "PUBO", "n": n, "p": terms, "ctor": "pairs", "edits": [], "labels": rng.choice(Labels.STYLES_X),
             "num": rng.choice(["int", "frac"]), "shape": shape, "lo": gen_coef(rng, False), "hi": gen_coef(rng, False)}
 
 # ------------------------------------------------------------------ implementation side
